@@ -107,6 +107,8 @@ def ihex(data):
 
 
 class Impl:
+    nested = None
+
     def __init__(self, cfg, scratch=None):
         import mysensors
         from mysensors.gateway_mqtt import MQTTGateway, AsyncMQTTGateway
@@ -191,6 +193,22 @@ class Impl:
             elif kind == "save":          # a periodic save tick
                 if gw.tasks.persistence:
                     self._guard(gw.tasks.persistence.save_sensors)
+            elif kind == "save_during":   # a periodic save tick with another op handled in the middle of it
+                inner = tuple(o[1])
+                run_inner = getattr(self, "nested", None) or self.op
+                fired = []
+                if gw.tasks.persistence:
+                    real_rename = os.rename
+
+                    def rename(src, dst, *a, **k):
+                        if not fired:               # first rename: the nodes are serialised and synced
+                            fired.append(1)
+                            run_inner(inner)
+                        return real_rename(src, dst, *a, **k)
+                    with mock.patch.object(os, "rename", rename):
+                        self._guard(gw.tasks.persistence.save_sensors)
+                if not fired:                       # nothing to save (flag clear / no persistence)
+                    run_inner(inner)
             elif kind == "restart":       # clean stop, new process, start_persistence
                 self._guard(self._restart)
             elif kind == "clock":
@@ -286,6 +304,8 @@ def oracle_strings(ops):
     from mysensors.message import Message
     out = ["1.4"]
     for o in ops:
+        if o[0] == "save_during":
+            o = tuple(o[1])
         if o[0] == "recv":
             try:
                 out.append(Message(o[1]).payload)
